@@ -30,7 +30,35 @@ impl<T> HashSet<T> {
     pub fn into_iter(self) -> (r: Vec<T>)
         ensures r@.no_duplicates(), forall|x: T| #[trigger] r@.contains(x) == self.view().contains(x),
     { unimplemented!() }
+    #[verifier::external_body]
+    pub fn contains(&self, x: &T) -> (r: bool)
+        ensures r == self.view().contains(*x),
+    { unimplemented!() }
 }
+// R3: `rustc_hash::FxHashMap as HashMap` -> this type, ASSUMED contract of a map lookup
+#[verifier::external_body]
+#[verifier::reject_recursive_types(K)]
+#[verifier::reject_recursive_types(V)]
+pub struct HashMap<K, V> { v: Vec<(K, V)> }
+impl<K, V> HashMap<K, V> {
+    pub uninterp spec fn view(&self) -> Map<K, V>;
+    #[verifier::external_body]
+    pub fn get(&self, k: &K) -> (r: Option<&V>)
+        ensures
+            self.view().contains_key(*k) ==> r == Some(&self.view()[*k]),
+            !self.view().contains_key(*k) ==> r.is_none(),
+    { unimplemented!() }
+}
+/// R17: `items.iter().copied()[.rev()]` -> the items front to back / back to front (ASSUMED meaning of
+/// iter / copied / rev; which of the two is read from the source text)
+#[verifier::external_body]
+fn verif_items_rev<T: Copy>(items: &Vec<T>) -> (r: Vec<T>)
+    ensures r@ == items@.reverse(),
+{ unimplemented!() }
+#[verifier::external_body]
+fn verif_items_fwd<T: Copy>(items: &Vec<T>) -> (r: Vec<T>)
+    ensures r@ == items@,
+{ unimplemented!() }
 
 //@ item parser/src/keys/mod.rs enum OsCode
 //@@ keep-vis
@@ -457,3 +485,43 @@ fn replay_step_emits_head(st: &mut Option<DynamicMacroReplayState>, b: ReplayBeh
     }
     r
 }
+
+
+// ---------------------------------------------------------------------------------------
+// play_macro, nested arm (a FRAGMENT: the `Some(state) => { .. }` arm; the `None` arm builds the
+// state inside a closure passed to Option::map and stays outside).  C19: "a macro never replays
+// itself recursively" and nested play = the other macro's items, then its end marker, then the
+// rest of the current replay.
+// ---------------------------------------------------------------------------------------
+//@ fragment src/kanata/dynamic_macro.rs fn play_macro block-after `Some(state) => {` as play_macro_nested
+//@@ header
+fn play_macro_nested(macro_id: u16, state: &mut DynamicMacroReplayState, recorded_macros: &HashMap<u16, Vec<DynamicMacroItem>>)
+//@@ resub R17 1 /for item in items\.iter\(\)\.copied\(\)(?:\.(rev)\(\))?/ => `for item in it: verif_items_\1(items)` default `fwd`
+//@@ spec
+    ensures
+        final(state).delay_remaining == old(state).delay_remaining,
+        // already playing (it is its own ancestor): refused, nothing changes
+        old(state).active_macros@.contains(macro_id) ==>
+            final(state).active_macros@ == old(state).active_macros@ && final(state).macro_items@ == old(state).macro_items@,
+        // unknown macro: nothing changes
+        !old(state).active_macros@.contains(macro_id) && !recorded_macros@.contains_key(macro_id) ==>
+            final(state).active_macros@ == old(state).active_macros@ && final(state).macro_items@ == old(state).macro_items@,
+        // otherwise its items are played next, in recorded order, it counts as active until its end
+        // marker - which comes right after its last item - and the interrupted replay continues
+        !old(state).active_macros@.contains(macro_id) && recorded_macros@.contains_key(macro_id) ==>
+            final(state).active_macros@ == old(state).active_macros@.insert(macro_id)
+            && final(state).macro_items@ == recorded_macros@[macro_id]@ + seq![DynamicMacroItem::EndMacro(macro_id)] + old(state).macro_items@,
+//@@ loop 1
+        invariant
+            it.seq() == items@.reverse(), 0 <= it.index@ <= items@.len(),
+            state.delay_remaining == old(state).delay_remaining,
+            state.active_macros@ == old(state).active_macros@.insert(macro_id),
+            state.macro_items@ == items@.subrange(items@.len() - it.index@, items@.len() as int) + seq![DynamicMacroItem::EndMacro(macro_id)] + old(state).macro_items@,
+//@@ after-re 1 /state\.macro_items\.push_front\(item\);/
+    proof {
+        let n = items@.len() as int;
+        let i = it.index@ as int;
+        assert(item == items@[n - 1 - i]);
+        assert(items@.subrange(n - i - 1, n) =~= seq![item] + items@.subrange(n - i, n));
+        assert(state.macro_items@ =~= items@.subrange(n - i - 1, n) + seq![DynamicMacroItem::EndMacro(macro_id)] + old(state).macro_items@);
+    }
